@@ -182,7 +182,32 @@ def random_programs(draw):
     if fault is not None:
         pos = draw(st.integers(0, len(ops)))
         ops = ops[:pos] + [fault, ['tick', 3]] + ops[pos:]
-    p = dict(p, ops=ops)
+    inter = [dict(i) for i in p['inter']]
+    retriers = [i for i, sp in enumerate(inter) if sp['k'] in ('st', 'ch') and sp['side'] == 'c']
+    if fault is not None and fault[0] == 'cut' and draw(st.booleans()):
+        # the application keeps issuing requests on the dead connection and closes the endpoint later
+        side = draw(st.sampled_from(['c', 's']))
+        ops = ops + [['tick', 3], ['settle'], ['close', side], ['tick', 3], ['settle']]
+    elif retriers and fault is not None and fault[0] == 'cut' and draw(st.booleans()):
+        # an application that falls back to another request from inside on_error, and closes the client later
+        i = draw(st.sampled_from(retriers))
+        inter.append({'k': 'rr', 'side': 'c', 'req': [4, 1], 'resp': {'mode': 'manual', 'p': [3, 0]}})
+        inter[i]['sub'] = dict(inter[i].get('sub') or {}, on_error_start=len(inter) - 1)
+        nstart = sum(1 for o in ops if o[0] == 'start')
+        ops = ops + [['tick', 3], ['settle'], ['close', 'c'], ['tick', 3], ['settle']]
+        # the retry target must not be started by the program itself
+        extra = nstart - (len(inter) - 1)
+        if extra > 0:
+            seen = 0
+            kept = []
+            for o in ops:
+                if o[0] == 'start':
+                    seen += 1
+                    if seen > len(inter) - 1:
+                        continue
+                kept.append(o)
+            ops = kept
+    p = dict(p, ops=ops, inter=inter)
     p['cfg'] = dict(p['cfg'], idmask=None)
     return p
 
@@ -193,6 +218,8 @@ info = {}
 def prop(program):
     tr = run_program(program)
     vs = monitors.mon_terminal_once(tr, PID)
+    # "exactly once" also excludes zero: an interaction started before an explicit close() must have its outcome by then
+    vs += [v for v in monitors.mon_connection_loss(tr, PID) if 'hanging_after_close' in v['sig']]
     ops = program['ops']
     fault_at = next((i for i, o in enumerate(ops) if o[0] in ('cut', 'close')), None)
     info['nt'] = fault_at is not None and fault_at < len(ops) - 2 or any(o[0] in ('cancel', 'end', 'fail') for o in ops)
@@ -256,5 +283,6 @@ def run(tier, seed):
 def replay(path):
     common.use_repo()
     case = common.load_replay(path)
-    tr = run_program(case)
-    return common.report_replay(PID, path, monitors.mon_terminal_once(tr, PID))
+    if 'enum' in case:
+        return common.report_replay(PID, path, monitors.mon_terminal_once(run_program(case), PID))
+    return common.report_replay(PID, path, prop(case))
